@@ -412,4 +412,47 @@ theorem appendMany_ref (C : Crypto) (batch : List Bytes) (bs : Array Bytes) (cs 
     rw [e]
     exact this
 
+/-- committing the changeset of a non-empty batch gives a tree with the reference roots of the
+    extended block list -/
+theorem commit_ref (C : Crypto) (bs : Array Bytes) (t : Tree) (batch : List Bytes) (seed : Bytes)
+    (hne : batch ≠ []) (h : RootsOK C bs t.changeset) :
+    ∃ t', t.commit (hashAndSign C (batch.foldl (Tree.append C) t.changeset) seed) = .ok t'
+      ∧ RootsOK C (bs ++ batch.toArray) t'.changeset := by
+  have hb := appendMany_ref C batch bs t.changeset h
+  -- the fold keeps the safeguards of `changeset()` and marks the changeset as upgraded
+  have hkeep : ∀ (l : List Bytes) (cs : Changeset),
+      (l.foldl (Tree.append C) cs).origLength = cs.origLength ∧ (l.foldl (Tree.append C) cs).origFork = cs.origFork
+        ∧ (l.foldl (Tree.append C) cs).ancestors = cs.ancestors ∧ (l.foldl (Tree.append C) cs).fork = cs.fork
+        ∧ (l ≠ [] → (l.foldl (Tree.append C) cs).upgraded = true) := by
+    intro l
+    induction l with
+    | nil => intro cs; simp
+    | cons x xs ih =>
+      intro cs
+      obtain ⟨a1, a2, a3, a4, a5⟩ := ih (Tree.append C cs x)
+      have e : (Tree.append C cs x).origLength = cs.origLength ∧ (Tree.append C cs x).origFork = cs.origFork
+          ∧ (Tree.append C cs x).ancestors = cs.ancestors ∧ (Tree.append C cs x).fork = cs.fork
+          ∧ (Tree.append C cs x).upgraded = true := by
+        simp [Tree.append, appendRoot]
+      refine ⟨by simp [a1, e.1], by simp [a2, e.2.1], by simp [a3, e.2.2.1], by simp [a4, e.2.2.2.1], fun _ => ?_⟩
+      cases xs with
+      | nil => simp [e.2.2.2.2]
+      | cons y ys => exact a5 (by simp)
+  obtain ⟨k1, k2, k3, k4, k5⟩ := hkeep batch t.changeset
+  have hup := k5 hne
+  have c1 : (hashAndSign C (batch.foldl (Tree.append C) t.changeset) seed).origLength = t.length := k1
+  have c2 : (hashAndSign C (batch.foldl (Tree.append C) t.changeset) seed).origFork = t.fork := k2
+  have c3 : (hashAndSign C (batch.foldl (Tree.append C) t.changeset) seed).ancestors = t.length := k3
+  have c4 : (hashAndSign C (batch.foldl (Tree.append C) t.changeset) seed).upgraded = true := hup
+  generalize hcs : hashAndSign C (batch.foldl (Tree.append C) t.changeset) seed = cs at c1 c2 c3 c4
+  have r1 : cs.length = (bs ++ batch.toArray).size := by rw [← hcs]; exact hb.length
+  have r2 : cs.roots.reverse = (rootsStack (bs ++ batch.toArray).size).map (fun p => nodeAt C (bs ++ batch.toArray) p.1 p.2) := by
+    rw [← hcs]; exact hb.roots
+  have r3 : cs.byteLength = ((bs ++ batch.toArray).toList.map List.length).sum := by rw [← hcs]; exact hb.bytes
+  have hcommit : t.commitable cs = true := by simp [Tree.commitable, c1, c2, c4]
+  refine ⟨⟨cs.roots, cs.length, cs.byteLength, cs.fork, cs.signature,
+            cs.nodes.foldl (fun m n => m.insert n.index n) t.unflushed⟩, ?_, ?_⟩
+  · simp [Tree.commit, hcommit, c4, c3, c1]
+  · exact ⟨r1, r2, r3⟩
+
 end HC.RefProof
